@@ -3,13 +3,7 @@
 import json, pathlib
 ROOT = pathlib.Path(__file__).resolve().parent
 
-CLAIMS = {
- "C09": dict(
-   text="Lean 4 theorems over the real-number model of utils.apply_gbs / extract_vars (masked grains keep the reference orientation exactly, floor chi/n, ratio preservation, renormalisation, bound chi/(n(1+chi)), order preservation, chi=0 no-op, strict tie) for every n, chi and input; the model is tied to /repo by running its Float instantiation and the real functions on the same inputs and recorded LSODA histories.",
-   note="Trusted: Lean kernel, axioms propext/Classical.choice/Quot.sound, correspondence harness and tolerance 1e-9, LSODA recorder. Modelled not verified: float rounding; whether ODEPACK honours the per-step write-back.",
-   technique="Lean 4 proof over hand-written model + differential correspondence with the implementation",
-   design="3/C09"),
-}
+CLAIMS = {p.stem: json.loads(p.read_text()) for p in sorted((ROOT / "claims").glob("C*.json"))}
 NOT_APPLICABLE = []
 
 def main():
@@ -44,7 +38,7 @@ def main():
                      "kind_free_text": "Lean 4 theorems over a hand-written model (lean/), tied to /repo by a differential correspondence harness (harness/) driving the model's executable instantiation through a line protocol"}],
         "checks": checks,
         "not_applicable": na,
-        "notes": "See DESIGN.md. Known findings: known_findings.json.",
+        "notes": "See DESIGN.md. Known findings: known_findings/Cxx.json (one file per property).",
     }
     (ROOT / "MANIFEST.json").write_text(json.dumps(man, indent=1) + "\n")
     print("MANIFEST.json:", len(checks), "checks,", len(na), "not claimed")
